@@ -264,3 +264,74 @@ PROPS.update({
                 level_text="Coq theorems: the four count functions report exactly the populations of owners, live subscribers and weak references, and every call changes those populations by exactly the handles it creates or drops (delta table), in every reachable state. Tied to the crate by calling the real count functions inside the C01 histories (counts is part of the alphabet) and comparing with the model and with the harness's own handle bookkeeping.",
                 level_note="Trusted: as C01. Arc::strong_count/weak_count are read at quiescent moments only."),
 })
+
+
+# ---------------------------------------------------------------- ObservableVector
+OVEC_TRUST = [KERNEL, EXTRACTION, CORR, IMBL,
+              "tokio::sync::broadcast 1.53.1 modelled as a position-based log (capacity rounded up to a power of two, retains the last cap2 messages, Lagged moves the receiver to pos-cap2, Closed only after the buffer is drained, send wakes all waiting receivers); not verified",
+              "ReusableBoxFuture / the recv future modelled as 'poll = try_recv + register waiter'"]
+
+
+def ovec_nontriv(case, obs):
+    return "R:" in obs
+
+
+def ovec_hist(case, obs):
+    ops = case.split(" :: ")[1].split(" ; ")
+    kinds = sorted({o.split("(")[0].split("[")[0] for o in ops if not o.startswith(("poll", "drain", "sub", "get"))})
+    return case.split(" :: ")[0] + "/" + ("txn" if "tb" in ops else "direct") + "/" + ("lagged" if "Reset" in obs else "window") + "/" + (kinds[0] if len(kinds) == 1 else "mixed")
+
+
+def ovec_streams(kind, orc):
+    def f(tier, rng):
+        q = tier == "quick"
+        n = 4000 if q else 150000
+        st = []
+        if kind in ("c05", "c17"):
+            st.append(Stream("exhaustive", "ovec", gens.ovec_exhaustive(2 if q else 3, (16,) if kind == "c05" else (2, 16)),
+                             ovec_nontriv, True,
+                             "every sequence of <= %d direct calls over 11 calls (incl. out-of-range and the documented no-ops) x start [] / [1,2,3] x plain/batched stream x poll-after-each / drain-at-end" % (2 if q else 3),
+                             ovec_hist, oracles=orc))
+        if kind == "c17":
+            st.append(Stream("traversal", "ovec", gens.ovec_traversal_exhaustive(4 if q else 5), ovec_nontriv, True,
+                             "every decision sequence keep/set/remove/set-then-remove/stop over vectors of <= %d items, directly and inside a committed / dropped transaction; every index 0..len+2 for insert/set/remove/truncate/entry" % (4 if q else 5),
+                             ovec_hist, oracles=orc))
+        if kind in ("c06", "c08"):
+            st.append(Stream("lag-block", "ovec", gens.ovec_lag_block((1, 2, 3, 5, 16)), ovec_nontriv, True,
+                             "k operations then poll for k = 0..cap2+3 at capacities 1,2,3,5,16, second subscriber created midway, multi-diff transaction in the backlog, with and without dropping the vector before polling",
+                             ovec_hist, oracles=orc))
+            st.append(Stream("exhaustive-smallcap", "ovec", gens.ovec_exhaustive(2 if q else 3, (1, 2, 3)), ovec_nontriv, True,
+                             "every sequence of <= %d direct calls at capacities 1,2,3" % (2 if q else 3), ovec_hist, oracles=orc))
+        if kind == "c07":
+            st.append(Stream("txn-exhaustive", "ovec", gens.ovec_txn_exhaustive(2 if q else 3), ovec_nontriv, True,
+                             "every transaction body of <= %d operations over 16 (mutators, clear, rollback, entry ops, a subscriber dropped mid-body) x commit / drop / rollback+drop / rollback+commit x 0/1/2 subscribers, followed by a direct call" % (2 if q else 3),
+                             ovec_hist, oracles=orc))
+        st.append(Stream("random", "ovec", gens.ovec_random(rng, n, lagbias=(kind in ("c06", "c08"))), ovec_nontriv, False,
+                         "%d seeded random histories of 3..60 operations: all mutators (5%% out of range), entry traversals, transactions with rollbacks, up to 4 subscribers of both flavours created and dropped at any time, polls and drains, capacities 1..16%s" % (n, ", low poll rates" if kind in ("c06", "c08") else ""),
+                         ovec_hist, oracles=orc))
+        return st
+    return f
+
+
+PROPS.update({
+    "C05": dict(streams=ovec_streams("c05", {"stepwise", "count", "app", "replica"}), trusted=OVEC_TRUST,
+                assumptions=["lag bounded by the capacity for the stepwise statement (the lagging case is C06)"],
+                level_text="Coq theorems over all histories (any interleaving of mutators, entry traversals, transactions, subscriptions of both flavours, polls, drops): every published diff is strictly applicable and takes the contents before the call to the contents after it; a direct call publishes exactly one diff, the documented no-ops none; a subscriber that never lagged has, at every Pending, received exactly the concatenation of everything published since it subscribed whatever the polling pattern and flavour, and its replica is the contents. Tied to vector.rs/subscriber.rs by exhaustive short histories and random long ones; the harness checks independently (with a plain Vec as shadow) that the replica passes through every state in order and that the number of delivered diffs is the number specified.",
+                level_note="Trusted: Coq kernel, extraction, harness, imbl::Vector as list, tokio broadcast as a position log."),
+    "C06": dict(streams=ovec_streams("c06", {"replica", "app", "lagreset"}), trusted=OVEC_TRUST,
+                assumptions=["single-threaded use of the vector (it is !Sync by construction: &mut self mutators)"],
+                level_text="Coq theorems for every capacity, history and polling pattern: at every Pending the replica equals the contents; a Reset is delivered only to a receiver more than cap2 >= capacity messages behind, alone in its item, carrying the contents as of delivery; no delivered diff is ever inapplicable; every batched item catches up completely; the unreachable!()s, the expect() and the drain loops are safe. Proved through an inductive invariant (window clause, last-message clause, YieldBatch clause) over the history semantics. Tied to the crate by lag-focused exhaustive blocks around the rounded capacity and random low-poll-rate histories.",
+                level_note="Trusted: as C05. The broadcast channel model is the main modelling risk; it is exercised at capacities 1, 2, 3, 5, 16."),
+    "C07": dict(streams=ovec_streams("c07", {"replica", "count", "stepwise", "plain", "app"}), trusted=OVEC_TRUST,
+                assumptions=["no subscribe while a transaction is open (the transaction holds &mut ObservableVector)"],
+                level_text="Coq theorems: abandoning a transaction at any point (drop, rollback, drop after partial rollbacks; any body incl. panicking calls) returns exactly the state before it, so every later observation is as without it; before commit nothing is visible outside and the handle sees the working contents; commit installs the working contents and publishes at most one message holding the whole batch, which takes the old contents to the new ones; an empty batch publishes nothing; a batched subscriber's replica only ever equals contents at operation boundaries. Tied to transaction.rs by exhaustive transaction bodies with every way of ending them.",
+                level_note="Trusted: as C05."),
+    "C08": dict(streams=ovec_streams("c08", {"endalive", "final", "wake", "app"}), trusted=OVEC_TRUST,
+                assumptions=["as C06"],
+                level_text="Coq theorems for every capacity and polling pattern: a poll reports the end only after the vector is dropped, and then the replica equals the final contents - also for a subscriber lagged beyond capacity (after the repair of handle_lag's Closed arm) or in the middle of a batch; a Pending subscriber is registered and the drop wakes every registered subscriber. Tied to the crate by histories ending in drop + drain in all four lag situations.",
+                level_note="Trusted: as C05. Finding F2 (stale final state after lag + drop) was repaired in 0590f0c."),
+    "C17": dict(streams=ovec_streams("c17", {"plain"}), trusted=OVEC_TRUST,
+                assumptions=[],
+                level_text="Coq theorems: ObservableVector's and the transaction's mutators leave and return exactly what the plain-list operation does; insert/set/remove panic exactly when out of range and a panicking call has no effect; for_each/entries never panics, hands every original element to the closure once in order with its current index, and leaves the decisions' results followed by the untouched rest (cursor invariant). Tied to vector.rs/entry.rs/transaction.rs by exhaustive decision sequences and all indices 0..len+2, compared with a plain Vec in the harness.",
+                level_note="Trusted: as C05."),
+})
